@@ -43,6 +43,8 @@ pub enum Place {
     BeforeBlockComment,
     AfterBlockComment,
     AroundInclude,
+    AfterSkippedRegion,
+    ThreeCallsThenStmt,
     CharConst,
     CharCase,
     CharExpr,
@@ -106,6 +108,8 @@ pub fn cases(tier: Tier) -> Vec<LCase> {
         Place::BeforeBlockComment,
         Place::AfterBlockComment,
         Place::AroundInclude,
+        Place::AfterSkippedRegion,
+        Place::ThreeCallsThenStmt,
     ];
     let mut v = Vec::new();
     for (k, b) in bodies.iter().enumerate() {
@@ -186,6 +190,8 @@ pub fn run(c: &LCase) -> CaseOutcome {
         Place::BeforeBlockComment => format!("{}const char *s = \"{}\"; /* tail \" M */\nconst char *t = \"zz\";\nvoid main() {{}}\n", pre, sp),
         Place::AfterBlockComment => format!("{}/* lead */ const char *s = \"{}\";\nconst char *t = \"zz\";\nvoid main() {{}}\n", pre, sp),
         Place::AroundInclude => format!("{}const char *s = \"{}\";\n#include \"c09hdr.h\"\nconst char *t = \"zz\";\nvoid main() {{}}\n", pre, sp),
+        Place::AfterSkippedRegion => format!("{}#ifdef UNDEF\nconst char *d1 = \"skip1\";\n#else\nconst char *d2 = \"kept\";\n#endif\n#if 0\nconst char *d3 = \"skip2\"; const char *d4 = \"skip3\";\n#endif\nconst char *s = \"{}\";\nconst char *t = \"zz\";\nvoid main() {{}}\n", pre, sp),
+        Place::ThreeCallsThenStmt => format!("{}char r; char *q;\nchar k(char *p) {{ return p[Y]; }}\nvoid main() {{ r = k(\"{}\") + k(\"yy\") + k(\"xx\"); q = \"zz\"; }}\n", pre, sp),
         Place::CharConst => format!("{}const char c = '{}';\nvoid main() {{}}\n", pre, sp),
         Place::CharCase => format!("{}char a, r;\nvoid main() {{ switch (a) {{ case '{}': r = 1; }} }}\n", pre, sp),
         Place::CharExpr => format!("{}char r;\nvoid main() {{ r = '{}'; }}\n", pre, sp),
@@ -212,7 +218,7 @@ pub fn run(c: &LCase) -> CaseOutcome {
     o.nontrivial = !c.atoms.is_empty();
     let zz: Vec<i32> = vec![122, 122, 0];
     match c.place {
-        Place::PtrInit | Place::ArrInit | Place::TwoOnLine | Place::BeforeLineComment | Place::BeforeBlockComment | Place::AfterBlockComment | Place::AroundInclude | Place::Adjacent => {
+        Place::PtrInit | Place::ArrInit | Place::TwoOnLine | Place::BeforeLineComment | Place::BeforeBlockComment | Place::AfterBlockComment | Place::AroundInclude | Place::AfterSkippedRegion | Place::Adjacent => {
             let mut w = want.clone();
             if c.place == Place::Adjacent {
                 w.pop();
@@ -230,6 +236,13 @@ pub fn run(c: &LCase) -> CaseOutcome {
                 if t.as_ref() != Some(&zz) {
                     fail(&mut o, "next-declaration-damaged", format!("the following declaration t = \"zz\" is stored as {:?}", t));
                 }
+                if c.place == Place::AfterSkippedRegion {
+                    let h = array_bytes(&rec, "d2");
+                    let hw: Vec<i32> = b"kept\0".iter().map(|b| *b as i32).collect();
+                    if h.as_ref() != Some(&hw) {
+                        fail(&mut o, "literal-after-skipped-region-damaged", format!("the literal in the active #else branch is stored as {:?}", h));
+                    }
+                }
                 if c.place == Place::AroundInclude {
                     let h = array_bytes(&rec, "hdr");
                     let hw: Vec<i32> = b"HEADER\0".iter().map(|b| *b as i32).collect();
@@ -239,11 +252,15 @@ pub fn run(c: &LCase) -> CaseOutcome {
                 }
             }
         }
-        Place::TableElem | Place::CallArg | Place::TwoCallsOneExpr | Place::TwoArgs => {
+        Place::TableElem | Place::CallArg | Place::TwoCallsOneExpr | Place::TwoArgs | Place::ThreeCallsThenStmt => {
             let lits = literal_vars(&rec);
             let mut wanted: Vec<Vec<i32>> = vec![want.clone()];
             if c.place != Place::CallArg {
                 wanted.push(zz.clone());
+            }
+            if c.place == Place::ThreeCallsThenStmt {
+                wanted.push(vec![121, 121, 0]);
+                wanted.push(vec![120, 120, 0]);
             }
             o.outcomes.push(hash64(&format!("{:?}", lits)));
             // every literal of the source must exist as its own variable with its own bytes
@@ -357,6 +374,6 @@ impl Check for C09 {
         run(&self.cs(tier)[idx])
     }
     fn bounds(&self, tier: Tier) -> Value {
-        json!({"atoms": ATOMS.iter().map(|a| a.0).collect::<Vec<_>>(), "max_atoms": if tier == Tier::Quick { 2 } else { 3 }, "places": 16})
+        json!({"atoms": ATOMS.iter().map(|a| a.0).collect::<Vec<_>>(), "max_atoms": if tier == Tier::Quick { 2 } else { 3 }, "places": 18})
     }
 }
